@@ -70,6 +70,19 @@ def generate(rng, tier, boost):
             for h in {0, 1, t - 1, t, t + 1, (1 << 256) - 1, rng.getrandbits(256), rng.getrandbits(200)}:
                 if 0 <= h < (1 << 256):
                     cases.append((1703, [chain, le32(h), c]))
+    # non-canonical spellings of targets at and below each chain's limit: the same target with one or
+    # two leading zero mantissa bytes and a larger exponent (legal; the decision is about the TARGET)
+    for chain in range(4):
+        for c in (0x1d00ffff, 0x207fffff, 0x1c7fffff, 0x1b0404cb, 0x1e0377ae, 0x1d00fffe):
+            e, m = c >> 24, c & 0x7fffff
+            for (e2, m2) in ((e + 1, m >> 8), (e + 2, m >> 16), (e + 1, (m >> 8) + 1), (e + 2, (m >> 16) + 1)):
+                if m2 == 0 or e2 > 34:
+                    continue
+                c2 = (e2 << 24) | m2
+                t = from_compact_ref(c2)
+                for h in (0, 1, t - 1, t, t + 1):
+                    if 0 <= h < (1 << 256):
+                        cases.append((1703, [chain, le32(h), c2]))
     for _ in range(200 if big else 30):
         cases.append((1704, [rbytes(rng, rng.choice([0, 1, 31, 32, 32, 32, 33, 64]))]))
     cases.append((1703, [0, b'\x00' * 31, 0x1d00ffff]))
